@@ -7,7 +7,19 @@ for f in sys.argv[1:]:
         m = re.match(r'(C\d+-\d+) (CAUGHT|MISSED)\s*(.*)', l)
         if m:
             res[m.group(1)] = (m.group(2), m.group(3).strip())
-cross = {'C06-5': 'C05'}
+cross = {'C06-5': 'C05', 'C01-7': 'C05', 'C04-8': 'C20 (and C05)', 'C14-7': 'C15', 'C16-7': 'C15', 'C06-9': 'C12', 'C20-8': 'C05'}
+not_caught = {
+ 'C01-8': 'needs two threads inside one chain (or an asynchronous KeyboardInterrupt inside run): taskchain chains are not thread-safe and no listed property speaks about threads in a chain; storesim simulates one thread per process',
+ 'C02-7': 'needs a run body that mutates its parameter value in place; generated run bodies are pure functions of their arguments (the properties assume deterministic computations)',
+ 'C02-8': 'needs placeholder strings inside the constructor arguments of parameter objects together with the literal substituted text in the same process; object arguments are generated without placeholders',
+ 'C04-9': 'a transient read error makes the changed code recompute instead of failing: C04 excludes failures from its quantifier and C05 allows recomputation after a fault, so no listed property is violated as the oracle reads them',
+ 'C06-7': 'needs an asynchronous signal (KeyboardInterrupt/SystemExit) in the middle of a single write call; the simulator models process death (with torn prefixes) and exceptions at operation boundaries, not signals inside a write',
+ 'C06-8': 'needs two runs of one computation returning ==-equal but differently typed values, i.e. a non-deterministic computation; generated computations are deterministic as the properties assume',
+ 'C07-8': 'needs two chains running concurrently on one store (thread interleaving between unlink and rename); storesim runs one simulated process at a time',
+ 'C12-7': 'only the log of a failed attempt moves; nothing is demanded of the log after a failed attempt (DESIGN: relaxations)',
+ 'C13-9': 'MultiChain construction made concurrent: manifests only under a real thread race inside the library (the sub-agent measured 0 hits in 3000 constructions without forcing it); not a schedule the simulator controls',
+ 'C18-8': 'needs a chain constructed from inside a running task (re-entrancy); histories are sequences of top-level operations',
+}
 rows = []
 for d in sorted(os.listdir('/verif/seeded')):
     p = f'/verif/seeded/{d}'
@@ -16,7 +28,7 @@ for d in sorted(os.listdir('/verif/seeded')):
     st, msg = res.get(d, ('?', ''))
     inv = re.match(r'(I-[\w-]+)', msg)
     pid = d.split('-')[0]
-    rnd = 1 if int(d.split('-')[1]) <= 3 else 2
+    rnd = (int(d.split('-')[1]) - 1) // 3 + 1
     meta = {'property': pid, 'id': d, 'round': rnd,
             'origin': 'written by an independent sub-agent that was given only the property text (round 2: plus one-line descriptions of the round-1 changes to avoid) and a scratch git worktree of /repo - nothing from /verif',
             'what': lines[0][:300], 'needs_to_manifest': ' '.join(lines[1:6])[:900],
@@ -24,9 +36,12 @@ for d in sorted(os.listdir('/verif/seeded')):
                           'how': 'tools/confirm_mutant.sh <dir> (scratch copy of /repo under /dev/shm, git apply, pytest, demo with/without)'},
             'detection': {'command': f'tools/run_mutant.sh seeded/{d}/patch.diff {pid} --tier quick', 'result': st,
                           'first_invariant_reported': inv.group(1) if inv else None, 'report_excerpt': msg[:300]}}
+    if d in not_caught and st != 'CAUGHT':
+        meta['detection']['result'] = 'NOT CAUGHT (by design)'
+        meta['detection']['why'] = not_caught[d]
     if d in cross:
         meta['detection']['also'] = f'owning check {pid} does not explore crashes by design; caught by: tools/run_mutant.sh seeded/{d}/patch.diff {cross[d]} --tier quick'
     json.dump(meta, open(p + '/meta.json', 'w'), indent=1)
-    rows.append((d, st if d not in cross or st == 'CAUGHT' else f'caught by {cross[d]}', inv.group(1) if inv else ''))
+    rows.append((d, st if st == 'CAUGHT' else (f'caught by {cross[d]}' if d in cross else ('not caught (by design)' if d in not_caught else st)), inv.group(1) if inv else ''))
 print(len(rows), sum(1 for r in rows if r[1] == 'CAUGHT'))
 open('/tmp/matrix_table2.md', 'w').write('\n'.join(f'| {a} | {b} | {c} |' for a, b, c in rows))
